@@ -60,7 +60,7 @@ CHECKS = {
                    "otherwise chained over 3 (quick) / 6 (thorough) successive writes; and under RC11 a conforming third-party reader (acquire fence / acquire load) never sees data of an update under the previous "
                    "even generation, nor the final generation before the data (N <= 2/3 updates).", NOTE_W, TECH_W),
     'C12': ('M', "All paths of one iteration of the poller loop: the monotonic (COARSE) clock is read before chronyd is queried, and the as-of instant attached to a report is a well-formed timespec not later than that reading; "
-                 "all return paths of ClockErrorBound::now(): REALTIME is read first, the monotonic clock second, and the interval is centred on the first reading. The order is structural, so it holds "
+                 "all return paths of ClockErrorBound::now() (any number of clock reads): REALTIME is read first, the monotonic clock second, and the interval is centred on that first reading. The order is structural, so it holds "
                  "for every delay between the steps.", NOTE_D, TECH_M),
     'C13': ('M+K', "All combinations of environment answers in one iteration of the real poller loop (clock read, chronyd answer, PHC configured, reference ids, PHC read, grace period): exactly one message to "
                  "the ShmWriter mailbox, of the documented kind (the grace-period answer that counts is the one given once chronyd's silence is known: the answers before and after the query are "
